@@ -42,18 +42,16 @@ func Harness_C04_apiConversions() {
 		vReach("sth-bad")
 	}
 	id := vBytes("id", hl)
-	ar := AddChainResponse{SCTVersion: Version(vU8("version")), ID: id, Timestamp: vU64("sct-ts"), Extensions: []string{"", "!!", "AAAA"}[vChoice("ext", 3)], Signature: wire}
+	ar := AddChainResponse{SCTVersion: Version(vU8("version")), ID: id, Timestamp: vU64("sct-ts"), Extensions: []string{"", "!!", "AAAA", "8A==", "8PE="}[vChoice("ext", 5)], Signature: wire}
 	sct, err := ar.ToSignedCertificateTimestamp()
 	if hl == 32 && !trailing && !truncated && ar.Extensions != "!!" {
 		vAssert(err == nil, "well-formed add-chain response converts")
 		if err == nil {
 			vAssert(sct.SCTVersion == ar.SCTVersion && sct.Timestamp == ar.Timestamp && bytes.Equal(sct.LogID.KeyID[:], id), "SCT fields carried over")
 			vAssert(bytes.Equal(sct.Signature.Signature, sig) && byte(sct.Signature.Algorithm.Hash) == h, "signature carried over")
-			if ar.Extensions == "" {
-				vAssert(len(sct.Extensions) == 0, "empty extensions")
-			} else {
-				vAssert(len(sct.Extensions) == 3, "base64 extensions decoded")
-			}
+			// extensions of 0, 3, 1 and 2 bytes: no, no, two and one padding character in the RFC's base64
+			wantExt := map[string]string{"": "", "AAAA": "\x00\x00\x00", "8A==": "\xf0", "8PE=": "\xf0\xf1"}[ar.Extensions]
+			vAssert(string(sct.Extensions) == wantExt, "base64 extensions decoded, whatever their padding")
 		}
 		vReach("sct-ok")
 	} else {
